@@ -357,7 +357,15 @@ func semProgramKeyed(r *explore.Run, be *semBackend, p *prog, d int, sc string) 
 // semExtra: further executable families contributed by other files of this package (appended in init
 // functions); each is run by all four semantic checks at the default option set (all option sets within
 // one deviation in the thorough tier).
-var semExtra []func(thorough bool) *wgen.Family
+var semExtra = []func(thorough bool) *wgen.Family{
+	// deeper nesting of loops and single-clause switches with break/continue (the structural checks see k<=4)
+	func(thorough bool) *wgen.Family {
+		if thorough {
+			return wgen.F2Mini(6, 3)
+		}
+		return wgen.F2Mini(5, 3)
+	},
+}
 
 func runSem(be *semBackend) int {
 	r := explore.New(be.prop)
